@@ -7,7 +7,7 @@ ID="$1"; NAME="$2"; shift 2
 W=/tmp/wt/$ID; M=$W/MUTANT
 [ -f $M/patch.diff ] || { echo "no patch.diff"; exit 2; }
 cd $W
-git checkout -q -- abtem 2>/dev/null; git stash -q 2>/dev/null; git checkout -q -- . 2>/dev/null
+git checkout -q -- abtem 2>/dev/null
 git status --short -- abtem | head -3
 echo "--- demo on clean tree"; /venv/bin/python MUTANT/demo.py > /tmp/intake_${ID}_clean.log 2>&1; rc_clean=$?; tail -2 /tmp/intake_${ID}_clean.log
 git apply MUTANT/patch.diff || { echo "patch does not apply on clean tree"; exit 2; }
